@@ -13,6 +13,15 @@ default `nslots` of GET_EYE (4097, 5000, 8192 slots, a whole PRBS15 period); a f
 even `nslots` argument (64, an intermediate value, the record length).  In every case the hypotheses (both symbols, >= 15
 transitions, rare symbols) are evaluated on the slots GET_EYE analyses: the first min(nslots, even number of whole slots).
 
+Input-form classes (hardening pass): part `eye-forms` repeats records on a deviation lattice with the SAME waveform
+handed over in every other legal form - `electrical_signal` without noise / with the noise in `.noise` (clean signal + noise
+separate, also all-zero noise, float32 noise under a float64 signal, complex128 with zero imaginary part), float32 / float16
+samples, write-protected buffers compared byte-for-byte afterwards, the grid configured by the other `gv` call forms, the
+other call spellings of GET_EYE, very large offsets |beta| = 1e6 ... 1e8 sigma, the same object evaluated again at the end of
+the sequence - and part `eye-int` hands over records of integer ADC counts in every integer dtype that holds them.  All of
+them are unit changes alpha x + beta of the base record (alpha = 1, beta = 0 for a pure change of form) and are compared with
+the affine image of the base result by the same equivariance oracle.
+
 The waveform is built without the library (own LFSR for the PRBS bits, np.kron, scipy
 Bessel/sosfiltfilt, a private RandomState); only GET_EYE (and gv for sps) is under test.
 """
@@ -50,6 +59,61 @@ LEVELS = [(0.0, 1.0), (0.0, 1e-3), (0.0, 100.0), (5.0, 6.0), (-50.0, 50.0), (2e-
 SIGMA_PCT = [0.5, 1.0, 2.0, 5.0]
 KSEEDS = [0, 1, 2]
 EQUIV = [(1e-3, 0.0), (1e3, 0.0), (1.0, 7.0), (0.02, -3.0), (50.0, 1.0)]
+N_UNIT = len(EQUIV)     # variants 0 ... 4: the unit changes of the original alphabet (float64 ndarray, gv(sps,R), keyword call)
+
+
+def V(alpha, beta, cont='nd', dtype='f64', gvf='sps,R', callf='kw'):
+    """one variant = the base record after the unit change alpha x + beta, handed to GET_EYE in one form:
+    beta  : volts, or ('s', k): beta = k alpha sigma (offset of k noise standard deviations of the scaled record)
+    cont  : 'nd' ndarray | 'es' electrical_signal(x) | 'es+n' electrical_signal(clean, noise) | 'es+0' electrical_signal(x, zeros)
+            | 'es+n32' electrical_signal(clean, float32 noise): noise of another dtype than the signal
+    dtype : sample dtype ('f64', 'f32', 'f16', 'c128' (zero imaginary part), integer dtypes 'i8' ... 'u64')
+    gvf   : call form that configures the global grid (GV_FORMS);  callf: spelling of the GET_EYE call (CALL_FORMS)"""
+    return (float(alpha), beta if isinstance(beta, tuple) else float(beta), cont, dtype, gvf, callf)
+
+
+GV_FORMS = ('sps,R', 'sps,fs', 'R,fs', 'fs', 'R,fs-ulp', 'R,fs+ulp', 'sps-np', 'sps-float', 'R10,wl,N', 'hist')
+CALL_FORMS = ('kw', 'pos', 'np', 'input=')
+INT_DTYPES = ('i8', 'u8', 'i16', 'u16', 'i32', 'u32', 'i64', 'u64')
+NP_DTYPE = {'f64': np.float64, 'f32': np.float32, 'f16': np.float16, 'c128': np.complex128,
+            'i8': np.int8, 'u8': np.uint8, 'i16': np.int16, 'u16': np.uint16,
+            'i32': np.int32, 'u32': np.uint32, 'i64': np.int64, 'u64': np.uint64}
+
+VARIANTS = [V(a_, b_) for a_, b_ in EQUIV]
+# ---- hardening pass: input forms (part eye-forms).  Simplest first inside every group.
+FORM_VARIANTS_START = len(VARIANTS)
+VARIANTS += [
+    # very large offsets (ndarray): |beta| / (alpha sigma) = 1e6, 1e7, 1e8 alone and with the extreme scale factors
+    V(1, ('s', 1e6)), V(1, ('s', -1e8)), V(1e3, ('s', 1e8)), V(1e-3, ('s', -1e7)),
+    # containers: electrical_signal without noise / noise separate / all-zero noise / float32 noise / complex128
+    V(1, 0, 'es'), V(1, 0, 'es+n'), V(50, 1, 'es+n'), V(1e-3, 0, 'es+n'), V(1e3, 0, 'es+n'),
+    V(1, ('s', -1e8), 'es+n'), V(1, 0, 'es+0'), V(1, 7, 'es+n32'), V(1, 0, 'es+n', 'c128'), V(1e3, 0, 'es', 'c128'),
+    # sample dtypes float32 (2^-9 and 2^9: exact scalings inside [1e-3, 1e3]) and float16
+    V(1, 0, 'nd', 'f32'), V(2.0 ** -9, 0, 'nd', 'f32'), V(2.0 ** 9, 0, 'nd', 'f32'), V(1, 7, 'nd', 'f32'),
+    V(1e3, 0, 'es+n', 'f32'), V(1e-3, 0, 'es', 'f32'), V(1, 0, 'nd', 'f16'),
+    # the other gv call forms (same sps; R only sets dt), alone and with one other deviation
+    V(1, 0, gvf='sps,fs'), V(1, 0, gvf='R,fs'), V(1, 0, gvf='fs'), V(1, 0, gvf='R,fs-ulp'), V(1, 0, gvf='R,fs+ulp'),
+    V(1, 0, gvf='sps-np'), V(1, 0, gvf='sps-float'), V(1, 0, gvf='R10,wl,N'), V(1, 0, gvf='hist'),
+    V(0.02, -3, 'es+n', gvf='R,fs'), V(1, 7, 'nd', 'f32', gvf='hist'),
+    # the other spellings of the call
+    V(1, 0, callf='pos'), V(1, 0, callf='np'), V(1, 0, callf='input='), V(50, 1, 'es+n', callf='pos'),
+    # the same objects once more at the end of the sequence (determinism, no state left behind by the calls in between)
+    V(1, 0, 'es+n'), V(1, 0),
+]
+FORM_ALL = tuple(range(FORM_VARIANTS_START, len(VARIANTS)))
+# thin slice for the expensive combinations: one member of every group
+FORM_FEW = tuple(VARIANTS.index(v) for v in (
+    V(1, ('s', -1e8)), V(1, 0, 'es+n'), V(1, ('s', -1e8), 'es+n'), V(1e-3, 0, 'es+n'), V(1, 0, 'nd', 'f32'),
+    V(2.0 ** -9, 0, 'nd', 'f32'), V(1, 0, gvf='R,fs-ulp'), V(1, 0, callf='np'))) + (len(VARIANTS) - 1,)
+# ---- hardening pass: integer ADC counts (part eye-int); the base record is the rounded record as float64
+INT_VARIANTS_START = len(VARIANTS)
+VARIANTS += [V(1, 0, 'nd', dt) for dt in INT_DTYPES] + [V(2, 11, 'nd', dt) for dt in INT_DTYPES] + [
+    V(1, 0, 'es', 'i16'), V(1, 0, 'es+n', 'i16'), V(2, 11, 'es+n', 'i32'), V(1, 0, 'es', 'u16'), V(1, 0, 'es+n', 'i64'),
+    V(1, 0, 'nd', 'f32'), V(1, 0, 'nd', 'i16', gvf='R,fs', callf='pos'), V(1, 0)]
+INT_ALL = tuple(range(INT_VARIANTS_START, len(VARIANTS)))
+# level pairs in counts: 1000 counts unipolar / bipolar (12 ... 16 bit converters), 100 counts for the 8-bit types
+LEVELS_INT = [(500.0, 1500.0), (-500.0, 500.0), (-50.0, 50.0), (20.0, 120.0)]
+MIN_SIGMA_COUNTS = 2.0   # spread bands are asserted on count records only when the Gaussian part dominates the rounding (rms 0.29)
 
 # bands of the statement
 BAND_MU = 0.08          # |mu0-a|, |mu1-b| <= 8 % (b-a)
@@ -58,6 +122,8 @@ BAND_S_HI = (2.0, 0.03)  # s <= 2 sigma + 3 % (b-a)
 BAND_TDIST = 0.10       # |t_right - t_left - 1| <= 10 %
 EQ_REL = 1e-6           # equivariance of mu / s relative to alpha (b-a)   (DESIGN 5/C17)
 EPS = np.finfo(float).eps
+U32 = float(np.finfo(np.float32).eps) / 2      # unit roundoff of float32
+EPS16 = float(np.finfo(np.float16).eps)
 
 
 # ------------------------------------------------------------------ input alphabet
@@ -137,7 +203,9 @@ def noise01(seed, pat, sps, sig_i, stream, n):
     return np.random.RandomState(h).standard_normal(n)
 
 
-def build(case):
+def build_parts(case, quant=False):
+    """(bits, record x, noise sigma, clean part, noise part): x == clean + noise up to rounding (exactly for count records).
+    quant: record of integer ADC counts - the record AND its clean part are rounded to whole counts (still float64)"""
     seed, pat, sps, (a, b), sig_i, stream, kseed = case
     bits = pattern_bits(pat, seed)
     w = waveform01(bits, sps)
@@ -145,26 +213,112 @@ def build(case):
     assert abs(nsamp - pattern_slots(pat)[1] * sps) < 1e-9 and nsamp <= w.size
     w = w[:nsamp]
     sig = SIGMA_PCT[sig_i] / 100.0
-    u = w + sig * noise01(seed, pat, sps, sig_i, stream, w.size)   # unit waveform incl. noise
+    n1 = noise01(seed, pat, sps, sig_i, stream, w.size)
+    u = w + sig * n1                                     # unit waveform incl. noise
     x = a + (b - a) * u
-    return bits, x, sig * (b - a)
+    clean = a + (b - a) * w
+    noise = (b - a) * sig * n1
+    if quant:
+        x, clean = np.rint(x), np.rint(clean)
+        noise = x - clean                                # whole counts, x == clean + noise exactly
+    return bits, x, sig * (b - a), clean, noise
+
+
+def build(case):
+    return build_parts(case)[:3]
 
 
 # ------------------------------------------------------------------ the call under test
 FIELDS = ('mu0', 'mu1', 's0', 's1', 'threshold', 't_left', 't_right', 't_opt', 'i')
 
 
-def call_eye(x, sps, kseed, nslots=None):
+def configure_gv(sps, gvf):
+    """the global grid configured by one of the documented call forms; always sps samples per slot"""
+    import warnings
+    from opticomlib.typing import gv
+    if gvf == 'sps,R':
+        return gv_reset(sps=sps, R=R)
+    if gvf == 'sps,fs':
+        return gv_reset(sps=sps, fs=sps * R)
+    if gvf == 'R,fs':
+        return gv_reset(R=R, fs=sps * R)
+    if gvf == 'fs':                      # R is the default 1e9 after gv.clean()
+        return gv_reset(fs=sps * R)
+    if gvf == 'R,fs-ulp':                # non-integer fs/R just below / above sps
+        return gv_reset(R=R, fs=float(np.nextafter(sps * R, 0.0)))
+    if gvf == 'R,fs+ulp':
+        return gv_reset(R=R, fs=float(np.nextafter(sps * R, np.inf)))
+    if gvf == 'sps-np':
+        return gv_reset(sps=np.int64(sps), R=np.float64(R))
+    if gvf == 'sps-float':
+        return gv_reset(sps=float(sps), R=R)
+    if gvf == 'R10,wl,N':
+        return gv_reset(sps=sps, R=10e9, wavelength=1310e-9, N=64)
+    if gvf == 'hist':                    # reconfigured after another configuration (slot count N stays set)
+        gv_reset(sps=64, R=2.5e9, N=32, wavelength=1310e-9)
+        with warnings.catch_warnings():
+            warnings.simplefilter('ignore')
+            gv(sps=sps, R=R)
+        return gv
+    raise AssertionError(gvf)
+
+
+def make_input(cont, dtype, alpha, beta, x, clean, noise):
+    """the record alpha x + beta in container `cont` with sample dtype `dtype`; None when the dtype cannot hold the record
+    (integer dtype: not whole counts / out of range; float16 / float32: overflow)"""
+    from opticomlib.typing import electrical_signal
+    dt = NP_DTYPE[dtype]
+    xv, cv, nv = alpha * x + beta, alpha * clean + beta, alpha * noise
+
+    def cast(v):
+        if dtype in INT_DTYPES:
+            info = np.iinfo(dt)
+            if not np.array_equal(v, np.rint(v)) or v.min() < info.min or v.max() > info.max:
+                return None
+            return v.astype(dt)
+        if dtype in ('f32', 'f16') and np.max(np.abs(v)) > float(np.finfo(dt).max) / 4:
+            return None
+        return v.astype(dt)
+
+    if cont == 'nd':
+        return cast(xv)
+    if cont == 'es':
+        v = cast(xv)
+        return None if v is None else electrical_signal(v)
+    if cont == 'es+0':
+        v = cast(xv)
+        return None if v is None else electrical_signal(v, np.zeros(v.size, dtype=v.dtype))
+    if cont == 'es+n':
+        v, n = cast(cv), cast(nv)
+        return None if v is None or n is None else electrical_signal(v, n)
+    if cont == 'es+n32':
+        assert dtype == 'f64'
+        return electrical_signal(cv, nv.astype(np.float32))
+    raise AssertionError(cont)
+
+
+def call_eye(x, sps, kseed, nslots=None, gvf='sps,R', callf='kw'):
+    """x: ndarray or electrical_signal (see make_input); its buffers are write-protected and compared byte-for-byte afterwards"""
     from opticomlib.devices import GET_EYE
-    gv_reset(sps=sps, R=R)
+    from mcx.core.env import freeze, unchanged
+    xin = x
+    snap = freeze(xin)               # write-protects the buffers of the object itself (it may be evaluated again later)
+    configure_gv(sps, gvf)
     np.random.seed(kseed)          # sklearn KMeans(random_state=None) draws from numpy's global RNG
-    xin = np.array(x, dtype=float)
-    xin.flags.writeable = False
-    if nslots is None:
-        e = GET_EYE(xin, sps_resamp=SPS_RESAMP)
+    ns = NSLOTS_DEFAULT if nslots is None else int(nslots)
+    if callf == 'kw':
+        e = GET_EYE(xin, sps_resamp=SPS_RESAMP) if nslots is None else GET_EYE(xin, nslots=ns, sps_resamp=SPS_RESAMP)
+    elif callf == 'pos':
+        e = GET_EYE(xin, ns, SPS_RESAMP)
+    elif callf == 'np':
+        e = GET_EYE(xin, nslots=np.int64(ns), sps_resamp=np.int64(SPS_RESAMP))
+    elif callf == 'input=':
+        e = GET_EYE(input=xin, sps_resamp=SPS_RESAMP, nslots=ns)
     else:
-        e = GET_EYE(xin, nslots=int(nslots), sps_resamp=SPS_RESAMP)
-    return {k: getattr(e, k, None) for k in FIELDS}
+        raise AssertionError(callf)
+    out = {k: getattr(e, k, None) for k in FIELDS}
+    out['_unchanged'] = bool(unchanged(xin, snap))
+    return out
 
 
 def _num(v):
@@ -232,14 +386,19 @@ def check_bands(out, a, b, sigma, sps, tag, rare=()):
 
 
 # ------------------------------------------------------------------ oracle: unit equivariance
-def check_equiv(base, out, alpha, beta, d, xmax, tag):
-    """base: result on x, out: result on alpha x + beta; d = b-a of x; xmax = max|x|"""
+def check_equiv(base, out, alpha, beta, d, xmax, tag, beta_txt=None, form='', floor=0.0, lowprec=False):
+    """base: result on x, out: result on alpha x + beta; d = b-a of x; xmax = max|x|.
+    beta_txt: spelling of the offset for the key (offsets given in units of sigma); form: key suffix naming the input form;
+    floor: additional rounding floor of the form (reduced-precision samples); lowprec: float32 / float16 arithmetic inside
+    GET_EYE - a one-step move of t_opt may then move the integer index by one"""
     v = []
-    pair = f'alpha={alpha:g},beta={beta:g}'
+    pair = f'alpha={alpha:g},beta={beta:g}' + (f' [{form}]' if form else '')
+    if beta_txt is None:
+        beta_txt = f'{beta:g}'
     # input class of the key: decade of the eye height before -> after the unit change (+ the offset when there is one)
-    cls = amp_class(d) + '->' + amp_class(alpha * d)[3:] + (f',beta={beta:g}' if beta else '')
+    cls = amp_class(d) + '->' + amp_class(alpha * d)[3:] + (f',beta={beta_txt}' if beta else '') + (f',{form}' if form else '')
     # tolerance: the design's 1e-6 relative to the scaled eye height, plus the rounding floor of forming alpha x + beta
-    tol = EQ_REL * alpha * d + 64 * EPS * (abs(beta) + alpha * xmax)
+    tol = EQ_REL * alpha * d + 64 * EPS * (abs(beta) + alpha * xmax) + floor
     B = {k: _num(base[k]) for k in FIELDS}
     O = {k: _num(out[k]) for k in FIELDS}
 
@@ -269,7 +428,8 @@ def check_equiv(base, out, alpha, beta, d, xmax, tag):
             v.append((f'equiv:timing:{cls}', msg(k) + f' differ by more than one resampled step {STEP:g}'))
     ib, io = base['i'], out['i']
     if isinstance(ib, (int, np.integer)) and isinstance(io, (int, np.integer)):
-        if int(ib) != int(io):
+        slack = 1 if (lowprec and both('t_opt') and O['t_opt'] != B['t_opt']) else 0
+        if abs(int(ib) - int(io)) > slack:
             v.append((f'equiv:timing:{cls}', msg('i')))
     elif repr(ib) != repr(io):
         v.append((f'equiv:timing:{cls}', msg('i')))
@@ -283,26 +443,81 @@ def check_equiv(base, out, alpha, beta, d, xmax, tag):
 
 
 # ------------------------------------------------------------------ case function
+def variant_info(var, sigma, xmax, nmax, nwin):
+    """(alpha, beta in volts, key spelling of beta, key suffix of the form, extra rounding floor, low precision?) of a variant"""
+    alpha, beta, cont, dtype, gvf, callf = var
+    beta_txt = None
+    if isinstance(beta, tuple):           # offset of k standard deviations of the scaled noise
+        beta_txt = f'{beta[1]:g}sigma'
+        beta = beta[1] * alpha * sigma
+    parts = ([] if (cont, dtype) == ('nd', 'f64') else [f'{cont}:{dtype}']) + ([] if gvf == 'sps,R' else [f'gv({gvf})']) \
+        + ([] if callf == 'kw' else [f'call:{callf}'])
+    mag = abs(beta) + alpha * xmax
+    floor, lowprec = 0.0, False
+    if dtype in ('f32', 'f16'):
+        # float32 arithmetic inside GET_EYE (scipy resample / numpy mean, std keep float32; float16 is raised to float32):
+        # samples rounded to the dtype + worst case of a plain float32 sum over the <= nwin samples of the central window
+        floor = (nwin + 64) * U32 * mag + (EPS16 * mag if dtype == 'f16' else 0.0)
+        lowprec = True
+    if cont == 'es+n32':
+        floor = U32 * alpha * nmax        # the noise part is rounded to float32
+    return alpha, beta, beta_txt, ','.join(parts), floor, lowprec
+
+
 def eye_case(case):
-    """case = (seed, pattern, sps, (a,b), sigma index, noise stream, kmeans seed, equiv pair indices[, nslots argument])"""
+    """case = (seed, pattern, sps, (a,b), sigma index, noise stream, kmeans seed, variant indices[, nslots argument[, quant]])
+    quant: record of whole ADC counts (the base call gets it as float64, the variants in the integer dtypes)"""
     seed, pat, sps, (a, b), sig_i, stream, kseed, eq = case[:8]
     nslots = case[8] if len(case) > 8 else None
-    bits, x, sigma = build(case[:7])
+    quant = bool(case[9]) if len(case) > 9 else False
+    bits, x, sigma, clean, noise = build_parts(case[:7], quant)
     used = bits[:analysed_slots(pat, nslots)]            # the slots GET_EYE analyses
     assert used.size >= 64 and used.size % 2 == 0 and admissible(used), 'pattern alphabet member is degenerate'
-    tag = f'{pat} sps={sps} kseed={kseed} stream={stream}' + ('' if nslots is None else f' nslots={nslots}')
-    base = call_eye(x, sps, kseed, nslots)
+    tag = f'{pat} sps={sps} kseed={kseed} stream={stream}' + ('' if nslots is None else f' nslots={nslots}') \
+        + (' counts' if quant else '')
+    objs = {}                                            # (alpha, beta, container, dtype) -> input object (reused when repeated)
+
+    def obj(alpha, beta, cont, dtype):
+        key = (alpha, beta, cont, dtype)
+        if key not in objs:
+            objs[key] = make_input(cont, dtype, alpha, beta, x, clean, noise)
+        return objs[key]
+
+    viol = []
+
+    def call(o, gvf, callf, what):
+        out = call_eye(o, sps, kseed, nslots, gvf, callf)
+        if not out.pop('_unchanged'):
+            viol.append((f'eye:input-modified:{what or "nd:f64"}', f'{tag} a={a:g} b={b:g}: the write-protected input differs after the call'))
+        return out
+
+    base = call(obj(1.0, 0.0, 'nd', 'f64'), 'sps,R', 'kw', '')
     n1 = int(used.sum()); n0 = int(used.size - n1)
     rare = tuple(s for s, n in (('s0', n0), ('s1', n1)) if n < 24)
-    viol = check_bands(base, a, b, sigma, sps, tag, rare)
+    if quant and sigma < MIN_SIGMA_COUNTS:               # rounding to whole counts is not small against the noise: no spread clause
+        rare = ('s0', 's1')
+    viol += check_bands(base, a, b, sigma, sps, tag, rare)
     obs = [canon(base)]
-    ncalls = 1
-    xmax = float(np.max(np.abs(x)))
+    ncalls, nskip = 1, 0
+    xmax, nmax = float(np.max(np.abs(x))), float(np.max(np.abs(noise)))
+    nwin = 8 * used.size                                  # > 0.1 * 1.1 slot of every 2-slot trace at 128 samples per slot
     for j in eq:
-        alpha, beta = EQUIV[j]
-        out = call_eye(alpha * x + beta, sps, kseed, nslots)
+        var = VARIANTS[j]
+        alpha, beta, beta_txt, form, floor, lowprec = variant_info(var, sigma, xmax, nmax, nwin)
+        o = obj(alpha, beta, var[2], var[3])
+        # reduced-precision samples: the record must still carry its noise (rounding of the samples <= sigma/8)
+        prec = {'f32': 2 * U32, 'f16': EPS16}.get(var[3], 0.0) * (abs(beta) + alpha * xmax)
+        if o is None or prec > alpha * sigma / 8:
+            nskip += 1
+            obs.append(('skipped', j))
+            continue
+        out = call(o, var[4], var[5], form)
         ncalls += 1
-        viol += check_equiv(base, out, alpha, beta, b - a, xmax, tag + f' a={a:g} b={b:g} sigma={sigma:g}')
+        ctxt = tag + f' a={a:g} b={b:g} sigma={sigma:g}'
+        viol += check_equiv(base, out, alpha, beta, b - a, xmax, ctxt, beta_txt, form, floor, lowprec)
+        if lowprec:                                       # the equivariance tolerance is wide here: bands of the scaled record too
+            viol += [(k + ',' + form, m) for k, m in
+                     check_bands(out, alpha * a + beta, alpha * b + beta, alpha * sigma, sps, tag + f' [{form}]', rare)]
         obs.append(canon(out))
     # one message per key per case
     seen, vv = set(), []
@@ -311,7 +526,7 @@ def eye_case(case):
             seen.add(k)
             vv.append((k, m))
     return res(viol=vv, obs=tuple(obs), nontrivial=True,
-               stats={'GET_EYE_calls': ncalls, 'equiv_pairs': len(eq), 'band_cases': 1})
+               stats={'GET_EYE_calls': ncalls, 'equiv_pairs': ncalls - 1, 'band_cases': 1, 'variants_skipped': nskip})
 
 
 def selftest_case(case):
@@ -348,6 +563,43 @@ def selftest_case(case):
     assert check_equiv(good, sc, 50.0, 1.0, 1.0, 1.05, 'self') == []
     for bd in (dict(sc, mu0=1.5001), dict(sc, s1=0.6001), dict(sc, t_left=-0.48), dict(sc, i=3)):
         assert check_equiv(good, bd, 50.0, 1.0, 1.0, 1.05, 'self'), f'equivariance oracle accepted {bd}'
+    # hardening pass: variant alphabet, input forms, gv call forms
+    assert VARIANTS[:N_UNIT] == [V(a_, b_) for a_, b_ in EQUIV] and len(set(FORM_FEW)) == len(FORM_FEW) <= len(FORM_ALL)
+    assert all(v[4] in GV_FORMS and v[5] in CALL_FORMS and v[3] in NP_DTYPE for v in VARIANTS)
+    assert {v[4] for v in VARIANTS} == set(GV_FORMS) and {v[5] for v in VARIANTS} == set(CALL_FORMS)
+    for sps in SPS:
+        for gvf in GV_FORMS:
+            g = configure_gv(sps, gvf)
+            assert g.sps == sps and type(g.sps) is int, (gvf, g.sps)
+        assert float(np.nextafter(sps * R, 0.0)) / R != sps != float(np.nextafter(sps * R, np.inf)) / R   # really non-integer
+    bits, x, sigma, clean, noise = build_parts((0, 'rand0:64', 8, (5.0, 6.0), 1, 0, 0))
+    assert np.array_equal(x, build((0, 'rand0:64', 8, (5.0, 6.0), 1, 0, 0))[1]) and np.max(np.abs(clean + noise - x)) < 8 * EPS * 6
+    assert abs(np.std(noise) / sigma - 1) < 0.1 and abs(sigma - 0.01) < 1e-15
+    o = make_input('es+n', 'f64', 50.0, 1.0, x, clean, noise)
+    assert np.array_equal(o.signal, 50.0 * clean + 1.0) and np.array_equal(o.noise, 50.0 * noise) and o.signal.dtype == np.float64
+    o = make_input('es+n32', 'f64', 1.0, 7.0, x, clean, noise)
+    assert o.signal.dtype == np.float64 and np.max(np.abs(o.noise - noise)) <= U32 * np.max(np.abs(noise))
+    assert make_input('nd', 'f32', 1.0, 0.0, x, clean, noise).dtype == np.float32
+    assert make_input('es', 'c128', 1.0, 0.0, x, clean, noise).signal.dtype == np.complex128
+    assert make_input('nd', 'i16', 1.0, 0.0, x, clean, noise) is None            # not whole counts
+    assert make_input('nd', 'f16', 1e3, 0.0, 100 * x, clean, noise) is None      # float16 overflow
+    bits, xq, sq, cq, nq = build_parts((0, 'rand0:64', 8, (500.0, 1500.0), 1, 0, 0), True)
+    assert np.array_equal(xq, np.rint(xq)) and np.array_equal(cq + nq, xq) and abs(np.std(nq) / sq - 1) < 0.1 and sq == 10.0
+    assert make_input('nd', 'u16', 1.0, 0.0, xq, cq, nq).dtype == np.uint16 and make_input('nd', 'i8', 1.0, 0.0, xq, cq, nq) is None
+    assert make_input('nd', 'u8', 1.0, 0.0, xq - 2000, cq, nq) is None            # negative counts do not fit an unsigned dtype
+    o = make_input('es+n', 'i32', 2.0, 11.0, xq, cq, nq)
+    assert o.signal.dtype == np.int32 and np.array_equal(o.signal.astype(float) + o.noise, 2 * xq + 11)
+    for lv in LEVELS_INT:                        # every count level pair is held by at least one integer dtype, at every sigma
+        xx = build_parts((0, 'rand0:64', 8, lv, 3, 0, 0), True)[1:]
+        assert sum(make_input('nd', dt, 1.0, 0.0, xx[0], xx[2], xx[3]) is not None for dt in INT_DTYPES) >= 1
+    al, be, btxt, form, floor, low = variant_info(V(1e3, ('s', 1e8), 'es+n', 'f32', 'R,fs', 'pos'), 0.01, 1.1, 0.05, 512)
+    assert (al, be, btxt, form, low) == (1e3, 1e9, '1e+08sigma', 'es+n:f32,gv(R,fs),call:pos', True) and floor > 0
+    assert variant_info(V(1, 7), 0.01, 1.1, 0.05, 512)[2:] == (None, '', 0.0, False)
+    # low-precision index rule and form suffix of the keys
+    assert check_equiv(good, dict(good, t_opt=good['t_opt'] + STEP, i=5), 1.0, 0.0, 1.0, 1.05, 'self', lowprec=True) == []
+    assert check_equiv(good, dict(good, t_opt=good['t_opt'] + STEP, i=5), 1.0, 0.0, 1.0, 1.05, 'self')
+    assert check_equiv(good, dict(good, i=5), 1.0, 0.0, 1.0, 1.05, 'self', lowprec=True)
+    assert check_equiv(good, dict(good, s0=0.013), 1.0, 0.0, 1.0, 1.05, 'self', form='es+n:f64')[0][0] == 'equiv:levels:pp=1e+00V->1e+00V,es+n:f64'
     return res(obs='selftest-ok', stats={'selftests': 1})
 
 
@@ -438,6 +690,47 @@ def enumerate_nslots(ctx):
     return cases, combos, skipped
 
 
+FORM_NSLOTS = [None, 64]     # nslots argument of the form / count parts: default and the smallest quantified record
+
+
+def _form_vectors(ctx, pats, levels, kmax):
+    """(pattern, sps, level pair, sigma, KMeans seed, nslots) vectors within <= kmax deviations of the simplest one; vectors whose
+    analysed prefix does not satisfy the hypotheses (rare-symbol patterns cut to 64 slots) are left out"""
+    out = []
+    for v in _deviations([len(pats), len(SPS), len(levels), len(SIGMA_PCT), len(KSEEDS), len(FORM_NSLOTS)], kmax):
+        p, s, l, g, k, n = v
+        ns = FORM_NSLOTS[n]
+        if ns is not None and not admissible(pattern_bits(pats[p], ctx.seed)[:analysed_slots(pats[p], ns)]):
+            continue
+        out.append((v, (ctx.seed, pats[p], SPS[s], levels[l], g, 0, KSEEDS[k]), ns))
+    return out
+
+
+def enumerate_forms(ctx):
+    """part eye-forms: every form variant on all vectors within <= 1 (quick) / <= 2 (thorough) deviations, the thin slice FORM_FEW
+    on the vectors with exactly 2 deviations in the quick tier; expensive records: quick two of them (odd length above the default
+    nslots, whole PRBS9 period) on the simplest vector with FORM_FEW, thorough all of them with every variant on the simplest vector
+    and FORM_FEW on the vectors with one deviation"""
+    cases = []
+    kfull = 1 if ctx.quick else 2
+    for v, c, ns in _form_vectors(ctx, PATTERNS, LEVELS, 2):
+        ndev = sum(1 for i in v if i)
+        cases.append(c + (FORM_ALL if ndev <= kfull else FORM_FEW, ns))
+    for pat in (['rand5:4097', 'prbs9:511'] if ctx.quick else PATTERNS_LONG + PATTERNS_LONG_THOROUGH):
+        for v, c, ns in _form_vectors(ctx, [pat], LEVELS, 0 if ctx.quick else 1):
+            if ctx.quick or any(v):
+                cases.append(c + (FORM_FEW, ns))
+            else:                         # every variant, in slices of 8 per case (a call takes up to 0.8 s)
+                cases += [c + (FORM_ALL[i:i + 8], ns) for i in range(0, len(FORM_ALL), 8)]
+    return cases
+
+
+def enumerate_int(ctx):
+    """part eye-int: records of whole ADC counts; every integer dtype that holds the record, on all (pattern, sps, count level
+    pair, sigma, KMeans seed, nslots) vectors within <= 1 (quick) / <= 2 (thorough) deviations of the simplest one"""
+    return [c + (INT_ALL, ns, True) for v, c, ns in _form_vectors(ctx, PATTERNS, LEVELS_INT, 1 if ctx.quick else 2)]
+
+
 # minimal inputs of the two confirmed defects (fixed content: harness seed 0), executed in both tiers
 REGRESS = [
     # proposed_fixes/C17_1: crossing KMeans on raw (t, volts): t_left == t_right, nan levels for b-a = 100 V
@@ -461,6 +754,19 @@ def run(ctx):
     ctx.rule('part eye-nslots: GET_EYE(x, nslots=n, sps_resamp=128) for every pattern of both alphabets x n in {64, even midpoint of 64 '
              'and min(L,4096), L (quick: L <= 512, thorough: L <= 8192)} (L = even number of whole slots of the record) x the same '
              'deviation lattice and unit changes as eye-long; hypotheses / rare symbols evaluated on the first n slots')
+    ctx.rule(f'part eye-forms: the base record (float64 ndarray, gv(sps,R), keyword call) against {len(FORM_ALL)} variants = unit change x '
+             'input form: offsets of 1e6 ... 1e8 noise standard deviations; electrical_signal without noise / clean signal + noise in '
+             '.noise / all-zero noise / float32 noise under a float64 signal / complex128 with zero imaginary part; float32 and '
+             'float16 samples; gv configured by (sps,fs), (R,fs), fs alone, non-integer fs/R one ulp below / above sps, numpy / float '
+             'sps, other R + wavelength + N, reconfiguration after another grid; positional / numpy-integer / input= call spellings; '
+             'the same objects once more at the end; every buffer write-protected and compared byte-for-byte afterwards. Enumerated '
+             'on all (pattern, sps, level pair, sigma, KMeans seed, nslots in {default, 64}) vectors within <= 1 (quick) / <= 2 '
+             f'(thorough) deviations of the simplest one; quick: the thin slice of {len(FORM_FEW)} variants on the vectors with 2 '
+             'deviations; expensive records on the simplest vector (thorough: + vectors with one deviation, thin slice)')
+    ctx.rule(f'part eye-int: records rounded to whole ADC counts, level pairs {LEVELS_INT} counts, base = the count record as float64, '
+             f'{len(INT_ALL)} variants = every integer dtype int8 ... uint64 that holds the record, also after the integer unit change '
+             '2 x + 11, inside electrical_signal with / without integer noise part; same lattice as eye-forms with <= 1 / <= 2 '
+             f'deviations; spread bands asserted for sigma >= {MIN_SIGMA_COUNTS:g} counts only')
     ctx.assume('numpy.random.seed(k) fixes every draw of sklearn KMeans (random_state=None uses the global RNG); '
                'workers are single-threaded so KMeans is deterministic')
     ctx.assume('scipy.signal.bessel/sosfiltfilt (the mild band-limit of the harness waveform) and RandomState are correct')
@@ -484,6 +790,19 @@ def run(ctx):
     ctx.space('nslots.skipped_inadmissible_prefix', len(skipped))
     ctx.extra['nslots_skipped'] = [f'{p}/nslots={n}' for p, n in skipped]
     ctx.pmap('eye-nslots', eye_case, ncases, horizon=120, chunk=2)
+    fcases = enumerate_forms(ctx)
+    ctx.space('axes.form_variants', len(FORM_ALL), quiet=True)
+    ctx.space('axes.form_variants_thin', len(FORM_FEW), quiet=True)
+    ctx.space('forms.cases_all_variants', sum(1 for c in fcases if c[7] == FORM_ALL))
+    ctx.space('forms.cases_thin_slice', sum(1 for c in fcases if c[7] == FORM_FEW))
+    ctx.space('forms.cases_long_record_slices', sum(1 for c in fcases if c[7] not in (FORM_ALL, FORM_FEW)))
+    # expensive records last inside the part; a case of a long record makes up to 43 calls of 0.1 ... 0.8 s
+    ctx.pmap('eye-forms', eye_case, fcases, horizon=900, chunk=1, recheck=2)
+    icases = enumerate_int(ctx)
+    ctx.space('axes.int_variants', len(INT_ALL), quiet=True)
+    ctx.space('axes.levels_int', len(LEVELS_INT), quiet=True)
+    ctx.pmap('eye-int', eye_case, icases, horizon=120, chunk=2)
     # one long case = 3 ... 6 calls of 0.6 s (idle); generous horizon because the machine is shared; recheck 2 (re-runs are serial)
     ctx.pmap('eye-long', eye_case, enumerate_long(ctx), horizon=600, chunk=1, recheck=2)
     ctx.extra['get_eye_calls'] = ctx.stats.get('GET_EYE_calls', 0)
+    ctx.extra['variants_skipped_not_representable'] = ctx.stats.get('variants_skipped', 0)
